@@ -5,7 +5,7 @@ import ast
 from .. import AnalysisError
 from ..cfg import ALL_KINDS, NORMAL_KINDS, iter_own
 from ..guards import canon
-from ..lib import collections_from, dominated_by, inline_locals, inlined, inlined_guards, iteration_paths, only_return, guard_forms, key_of, norm, render, type_is
+from ..lib import collections_from, inlined_expr, reachable_from, dominated_by, inline_locals, inlined, inlined_guards, iteration_paths, only_return, guard_forms, key_of, norm, render, type_is
 from ..report import describe, rule
 from .common import report_role, role_typestate
 
@@ -409,6 +409,25 @@ def c13_7(ctx, r):
                     "(the command still exits 0)", "reruns exactly the jobs selected by its flags (failed/canceled, missing, successful)")
     if seen != {"canceled", "failed", "successful", "missing"}:
         raise AnalysisError("C13.7", f"selections recognised: {sorted(seen)}")
+    # `missing` = every configured job without a result: the scan is fed *all* jobs of the cluster, and get_missing_jobs() selects by `no result` alone
+    gm = ctx.fn("ResultsSummary.get_missing_jobs", "C13.7")
+    for s in ctx.cg.sites_in(fn):
+        if not s.calls_short(ctx.ix, "ResultsSummary.get_missing_jobs"):
+            continue
+        a = ctx.arg_for(s, gm, gm.bound_params[0])
+        e = inlined_expr(ctx, fn, a) if a is not None else None
+        ok = isinstance(e, ast.Call) and isinstance(e.func, ast.Attribute) and e.func.attr == "iter_jobs" and isinstance(e.func.value, ast.Name) and e.func.value.id in fn.params and not e.args and not e.keywords
+        r.check(ok, "the missing scan is fed every job of the cluster", key_of(fn, "missing scan over a subset of the jobs"), s.loc,
+                f"get_missing_jobs() is given `{ctx.src(e) if e is not None else None}`, not cluster.iter_jobs() without a filter: a job that was handed to the HPC and never produced a result (state still "
+                "'submitted' after a forced completion) is not selected by --missing, while its dependents are", "reruns exactly the jobs selected by its flags")
+    cols = collections_from(ctx, gm, lambda it: isinstance(it, ast.Name) and it.id == gm.bound_params[0])
+    okm = any({(f.replace(" ", ""), p) for f, p in c["conds"]} <= {("self.get_result(_.name)isNone", True), ("call:ResultsSummary.get_result(_.name)@selfisNone", True)} and c["conds"] and c["elt"] == "_" for c in cols)
+    if not cols:
+        raise AnalysisError("C13.7", "get_missing_jobs no longer collects from its parameter")
+    r.check(okm or any(len(c["conds"]) <= 2 and all("isNone" in f.replace(" ", "") and "get_result" in f and p for f, p in c["conds"]) and c["conds"] for c in cols), "a job is missing iff it has no result",
+            key_of(gm, "missing predicate"), gm.loc(gm.node),
+            f"get_missing_jobs selects under {[sorted(c['conds']) for c in cols]}: not `get_result(job.name) is None` alone - jobs that do have a result (canceled ones, say) are rerun by --missing although "
+            "their class was not selected, and their old result is pruned", "reruns exactly the jobs selected by its flags (failed/canceled, missing, successful)")
 
 
 @rule(P, "C13.8", "T3", "the reset persists what it changed: job states and counters reach both files before the command goes on", min_obligations=3)
@@ -469,6 +488,11 @@ def result_round_trip(ctx, r, rid):
     de = ctx.fn("result.deserialize_result", rid)
     new = ctx.fn("Result.__new__", rid)
     dp = de.params[0]
+    rebound = [x for x in iter_own(de.node) if isinstance(x, (ast.Assign, ast.AugAssign)) and any(isinstance(t, ast.Name) and t.id == dp for t in (x.targets if isinstance(x, ast.Assign) else [x.target]))]
+    rebound += [x for x in iter_own(de.node) if isinstance(x, ast.Assign) and any(isinstance(t, ast.Subscript) and isinstance(t.value, ast.Name) and t.value.id == dp for t in x.targets)]
+    r.check(not rebound, "deserialize_result reads the row it was given (the parameter is not rebound / rewritten)", key_of(de, "row rewritten before it is read"), de.loc(rebound[0]) if rebound else de.loc(de.node),
+            f"`{ctx.src(rebound[0])[:90] if rebound else ''}`: the row is transformed as a whole before its fields are read - a value that merely *looks* special in some column (a job named None, say) comes back changed",
+            "carries the job's name ... results of all other jobs are preserved (same name, return code, status and times)")
     calls = 0
     for s in ctx.cg.sites_in(de):
         if new.qual not in s.targets():
@@ -493,3 +517,35 @@ def result_round_trip(ctx, r, rid):
 @rule(P, "C13.9", "T9", "a kept result row survives the rewrite of the consolidated file unchanged (serialize -> csv -> deserialize is the identity on the fields)", min_obligations=8)
 def c13_9(ctx, r):
     result_round_trip(ctx, r, "C13.9")
+
+
+@rule(P, "C13.10", "T1", "after the reset nothing in resubmit-jobs depends on files that may not exist: directory listings are guarded by an existence test", min_obligations=1)
+def c13_10(ctx, r):
+    """Once prepare_for_resubmission() ran, the submission is no longer complete - a second `resubmit-jobs` is refused.  A crash between the reset
+    and mgr.submit_jobs() therefore leaves `results erased and no way forward`.  The one step in between that touches the file system, the
+    clean-up of <output>/events, must tolerate the directory's absence (it is only created by report generation): every iterdir()/listdir()/
+    scandir()/glob of resubmit_jobs() that is reachable after the reset is dominated by an exists()/is_dir() test."""
+    fn = ctx.fn(FN, "C13.10")
+    prep = [n for s in ctx.sites(fn, short="Cluster.prepare_for_resubmission") for n in ctx.nodes_of(fn, s.node)]
+    if not prep:
+        raise AnalysisError("C13.10", "no prepare_for_resubmission call in resubmit_jobs")
+    after = set()
+    for p0 in prep:
+        after |= set(reachable_from(ctx, fn, p0, kinds=NORMAL_KINDS))
+    n = 0
+    for nd in ctx.cfg(fn).nodes:
+        if nd.id not in after:
+            continue
+        for c in ctx.cfg(fn).calls_at(nd):
+            name = ctx.src(c.func).split(".")[-1]
+            if name not in ("iterdir", "listdir", "scandir"):
+                continue
+            n += 1
+            forms = guard_forms(ctx, fn, nd, kill=False)
+            ok = any(p and (f.endswith(".exists()") or f.endswith(".is_dir()") or "os.path.exists(" in f or "os.path.isdir(" in f or "@" in f and ("exists" in f or "is_dir" in f)) for f, p in forms)
+            r.check(ok, f"{name}() runs only if the directory exists", key_of(fn, f"{name} of a directory that may not exist"), fn.loc(c),
+                    f"`{ctx.src(c)[:70]}` is reached after the cluster state was reset, under {sorted(('' if p else 'not ') + f for f, p in forms)} - no existence test: on a submission made without reports the "
+                    "directory was never created, the command dies with FileNotFoundError after results were pruned and counters reset, and a second resubmit-jobs is refused (submission no longer complete)",
+                    "a failure of the command never leaves the submission with results erased and no way forward")
+    if n < 1:
+        raise AnalysisError("C13.10", "no directory listing after the reset any more (rule is moot)")
